@@ -483,6 +483,16 @@ func c05Scenario(r *sim.Run) {
 		}
 	}
 
+	// "the byte counts it reports equal the bytes actually delivered": an abortive close (SO_LINGER
+	// 0) throws away bytes that a Write had accepted — they are counted but never delivered
+	for _, c := range []*simnet.Conn{cliS, covS} {
+		if c.Discarded > 0 {
+			if r.Fail("C05/byte-count/abortive-close", "%s was closed with SO_LINGER 0 while %d bytes its Write had accepted (and the summary counts) had not reached the peer: they were discarded", c.Name, c.Discarded) {
+				return
+			}
+		}
+	}
+
 	// byte accounting
 	out := logbuf.String()
 	if i := strings.Index(out, "proxy closed "); i >= 0 {
